@@ -1,30 +1,56 @@
-"""C16 — log compaction preserves the recoverable state, even if interrupted.
+"""C16 — log compaction preserves the recoverable state, even if interrupted, also at a busy moment.
 
 Obligations : coq/Properties/C16.v (model coq/Aof/Rewrite.v over the file/loader model of C08).
 Tie         : the real compaction (RewriteAofFile / rewriteAofFiles / clearRewriteAofFiles) is run on a real in-process
-              node; crash points verifPoint(200..211) (proposed_fixes/c16_hooks.diff, applied at build time to a COPY
-              of <repo>/server/aof.go unless already committed) copy the data directory synchronously after every
-              file-system mutation.  (1) every snapshot is compared BYTE FOR BYTE with the directory the model computes
-              after the same prefix of its mutation list (HasLock decisions taken from the real rewrite.aof.tmp);
+              node with a MANUAL clock; crash points verifPoint(200..211) (committed in <repo>/server/aof.go, else
+              proposed_fixes/c16_hooks.diff is applied at build time to a COPY) copy the data directory synchronously
+              after every file-system mutation, point 299 = after the compaction has returned.
+              (1) quiescent compactions (2-3 in a row in one process, start-up compactions in restart chains, hand-built
+                  directories): every snapshot is compared BYTE FOR BYTE with the directory the model computes after the
+                  same prefix of its mutation list (HasLock decisions taken from the real rewrite.aof.tmp);
               (2) monitor: a fresh node started on each snapshot must hold exactly what a node started on the
-              pre-compaction image holds (census of holds: key, LockId, depth, Count, Rcount, value).
+                  pre-compaction image holds (census of holds: key, LockId, depth, Count, Rcount, value, re-armed
+                  deadline to the second);
+              (3) busy compactions (`aofh script`): a compaction is PARKED at a crash point; while it is parked further
+                  requests are appended and a second compaction is requested (RewriteAofFile(true) directly, through the
+                  admin guard, or by the size threshold inside PushLock); reference = the same history run in a second
+                  process that never compacts; every snapshot (crash points, completion, marks, final directory) must
+                  recover to the reference census of its history prefix; the flags isRewriting/isWaitRewite read from the
+                  real Aof struct and the start/drop outcome of every request are compared with the extracted guard state
+                  machine (source switch: the entry guard of rewriteAofFiles tests isRewriting); the footprint files of
+                  the parked compaction are compared byte for byte with the model;
+              (4) second generation: a node with start-up compaction is run on crash images / final directories and the
+                  directory it leaves is restarted again.
 """
-import json, os, re, shutil, subprocess, tempfile, time
+import hashlib, json, os, re, shutil, subprocess, tempfile, time
 import vlib
 from checks import C08 as c8
 
 MANIFEST = {
     "engine": "coq",
     "category": "proof",
-    "text": "Coq model of the compaction as an ordered list of file-system mutations over a directory of byte files; "
-            "theorem: the uninterrupted compaction hands the engine exactly the HasLock-filtered (REWRITED-marked) "
-            "records followed by the untouched newer append files; refutation (vm_compute witness, replayed on the real "
-            "code): a crash after the inputs are removed and before rewrite.aof.tmp is renamed loses every compacted hold.",
-    "note": "quiescent compactions only (appends concurrent with the rewrite are not modelled); HasLock is a parameter of "
-            "the model, its decisions are read back from the real rewrite.aof.tmp in the differential run.",
-    "technique": "interactive proof (Coq) + extraction-based differential testing at crash points + runtime monitor",
+    "text": "Coq model of the compaction as an ordered list of file-system mutations over a directory of byte files plus "
+            "the entry guard of rewriteAofFiles as a state machine over isRewriting/isWaitRewite. Theorems: the compacted "
+            "file hands the engine exactly the HasLock-filtered (REWRITED-marked) records in order; for every request "
+            "sequence at most one compaction is active, a request while one runs changes nothing, compactions start only "
+            "after the previous has returned; appends never go to an input file and every interleaving of a compaction "
+            "with concurrent appends/rotations (and every crash image of it) equals the quiescent compaction (crash "
+            "image) with the appends on top, also for what a restart recovers. Refutation (vm_compute witness, replayed "
+            "on the real code): a crash after the inputs are removed and before rewrite.aof.tmp is renamed loses every "
+            "compacted hold.",
+    "note": "HasLock is a parameter of the model (decisions read back from the real rewrite.aof.tmp in the differential "
+            "run); the directory-level equation recover(compact d) = kept ++ newer files and requests interleaved with "
+            "the SCAN (no crash point inside loadRewriteAofFiles) are differential-only.",
+    "technique": "interactive proof (Coq) + extraction-based differential testing at crash points with parked "
+                 "compactions + runtime monitor against a never-compacting reference run",
     "design_ref": "DESIGN.md section 5 C16",
 }
+
+ENV = dict(os.environ, AOFH_MANUAL_CLOCK="1")
+THEOREMS = ["C16_compaction_filters_and_keeps_order", "C16_compaction_preserves_replay", "C16_refuted_crash_before_rename",
+            "C16_refuted_value_file_renamed_separately", "C16_at_most_one_compaction", "C16_request_while_rewriting_is_dropped",
+            "C16_compactions_start_after_the_previous_finished", "C16_guard_on_other_flag_overlaps",
+            "C16_appends_avoid_the_compaction_inputs", "C16_busy_compaction_is_quiescent_compaction_plus_appends"]
 
 
 def hooked_source(ctx):
@@ -44,12 +70,44 @@ def hooked_source(ctx):
     return ov, "hooks applied to a build-time copy of server/aof.go (proposed_fixes/c16_hooks.diff)"
 
 
+def guard_switch(repo):
+    """source switch of the guard state machine: which flag does the entry guard of rewriteAofFiles test?"""
+    src = open(os.path.join(repo, "server", "aof.go")).read()
+    m = re.search(r"\nfunc \(self \*Aof\) rewriteAofFiles\(\) \{\s*self\.glock\.Lock\(\)\s*if self\.(\w+) \{\s*self\.glock\.Unlock\(\)\s*return\s*\}\s*"
+                  r"self\.isWaitRewite = false\s*self\.isRewriting = true\s*self\.glock\.Unlock\(\)", src)
+    return m.group(1) if m else None
+
+
 def K(i):
     return "%032x" % i
 
 
-def census(out, prefix="hold"):
-    return sorted(re.findall(r"^%s (db=\d+ key=\w+ lockid=\w+ depth=\d+ count=\d+ rcount=\d+) eflag=\d+ locked=\d+ (val=\S+)" % prefix, out, flags=re.M))
+HOLD_RE = re.compile(r"^hold (db=\d+ key=\w+ lockid=\w+ depth=\d+ count=\d+ rcount=\d+) eflag=(\d+) locked=\d+ (val=\S+)(?: deadline=(-?\d+) now=(-?\d+))?", re.M)
+
+
+def census(out):
+    """[(core, val, eflag, deadline, now)] sorted"""
+    return sorted((m[0], m[2], int(m[1]), int(m[3] or 0), int(m[4] or 0)) for m in HOLD_RE.findall(out))
+
+
+def census_equal(a, b):
+    """same holds, depths, terms, values and deadlines (to the second; holds in MINUTE units are re-armed from the
+    restart's own clock with a granularity of a minute: tolerance one minute + the distance of the two restarts)"""
+    if len(a) != len(b):
+        return False
+    for x, y in zip(a, b):
+        if x[0] != y[0] or x[1] != y[1] or x[2] != y[2]:
+            return False
+        if x[2] & 0x0040:
+            if abs((x[3] - x[4]) - (y[3] - y[4])) > 60 + abs(x[4] - y[4]):
+                return False
+        elif x[3] != y[3]:
+            return False
+    return True
+
+
+def census_show(c):
+    return ["%s %s eflag=%d deadline=%d" % (x[0], x[1], x[2], x[3]) for x in c]
 
 
 def read_dir(d):
@@ -72,22 +130,203 @@ def show_dir(files):
     return " ".join(sorted("%s=%s" % (f, c8.hx(b)) for f, b in files.items()))
 
 
-def gen_ops(rng, n, base):
-    """lock/unlock requests, every hold persisted immediately (EXPRIED_FLAG_ZEOR_AOF_TIME), some with values"""
-    ops, held = [], []
-    for i in range(n):
-        if held and rng.random() < 0.3:
-            k = held.pop(rng.randrange(len(held)))
-            ops.append("U:0:%s:%s:0:0:0:0:0:-" % (K(0x1000 + k), K(0x2000 + k)))
-        else:
-            k = base + i
-            data = "-"
+def local_file(name, cur):
+    """coq/Aof/Rewrite.v local_file: footprint of a compaction started while append.aof.<cur> was the current file"""
+    m = re.fullmatch(r"append\.aof\.(\d+)(\.dat)?", name)
+    return int(m.group(1)) < cur if m else name.startswith("rewrite.aof")
+
+
+class Gen:
+    """workload generator: new holds (some re-entrant capable: Rcount>=1, some shared: Count>=1, some with values), re-entrant
+    re-locks, LOCK_FLAG_UPDATE_WHEN_LOCKED updates with new Expried/Rcount/Count(/value), partial and full unlocks.  Every
+    hold is persisted immediately (EXPRIED_FLAG_ZEOR_AOF_TIME)."""
+    TERMS = [(3000, 0x0100), (7000, 0x0100), (20000, 0x0100), (0xffff, 0x4100), (60, 0x0140)]
+
+    def __init__(self, rng):
+        self.rng, self.n, self.holds = rng, 0, {}
+        # terms that are over for the loader while the hold lives on (600 s with the scripted clock 1000 s behind the wall
+        # clock) are NOT generated: the loader's per-record expiry filter then decides what a restart recovers (C07); two
+        # such histories are in corpus/C16 (known findings)
+        self.terms = self.TERMS
+        self.kinds = {}
+
+    def val(self):
+        return c8.mkval(bytes([self.rng.randrange(256) for _ in range(self.rng.choice([1, 4, 9]))])).hex()
+
+    def op(self, typ, k, lid, exp, eflag, count, rcount, flag, data="-"):
+        return "%s:0:%s:%s:%d:%d:%d:%d:%d:%s" % (typ, K(0x1000 + k), K(0x2000 + lid), exp, eflag, count, rcount, flag, data)
+
+    def step(self):
+        rng, h = self.rng, self.holds
+        r = rng.random()
+        ids = sorted(h)
+        kind = "new"
+        if ids and r < 0.17:
+            cand = [i for i in ids if h[i]["depth"] <= h[i]["rcount"]]
+            if cand:
+                kind = "relock"
+        elif ids and r < 0.34:
+            kind = "update"
+        elif ids and r < 0.44:
+            if [i for i in ids if h[i]["depth"] > 1]:
+                kind = "partial"
+        elif ids and r < 0.62:
+            kind = "unlock"
+        elif ids and r < 0.67:
+            if [i for i in ids if h[i]["count"] > 0]:
+                kind = "share"
+        self.kinds[kind] = self.kinds.get(kind, 0) + 1
+        if kind == "new":
+            self.n += 1
+            k = self.n
+            exp, eflag = rng.choice(self.terms)
+            t = {"k": k, "depth": 1, "rcount": rng.choice([0, 0, 1, 2, 3]), "count": rng.choice([0, 0, 0, 2]), "exp": exp, "eflag": eflag}
+            h[k] = t
+            return self.op("L", k, k, exp, eflag, t["count"], t["rcount"], 0, self.val() if rng.random() < 0.3 else "-")
+        if kind == "share":
+            i = rng.choice([i for i in ids if h[i]["count"] > 0])
+            self.n += 1
+            t = dict(h[i], depth=1)
+            h[self.n] = t
+            return self.op("L", t["k"], self.n, t["exp"], t["eflag"], t["count"], t["rcount"], 0)
+        if kind == "relock":
+            i = rng.choice([i for i in ids if h[i]["depth"] <= h[i]["rcount"]])
+            t = h[i]
+            t["depth"] += 1
+            if rng.random() < 0.5:
+                t["exp"], t["eflag"] = rng.choice(self.terms)
+            return self.op("L", t["k"], i, t["exp"], t["eflag"], t["count"], t["rcount"], 0)
+        if kind == "update":
+            i = rng.choice(ids)
+            t = h[i]
+            t["exp"], t["eflag"] = rng.choice([x for x in self.terms if x != (t["exp"], t["eflag"])])
+            t["rcount"] = rng.choice([0, 1, 2, 3, 5])
             if rng.random() < 0.3:
-                data = c8.mkval(bytes([rng.randrange(256) for _ in range(rng.choice([1, 4, 9]))])).hex()
-            eflag, exp = rng.choice([(0x0100, 600), (0x0100, 3000), (0x4100, 0xffff), (0x0140, 30)])
-            ops.append("L:0:%s:%s:%d:%d:0:0:0:%s" % (K(0x1000 + k), K(0x2000 + k), exp, eflag, data))
-            held.append(k)
-    return ops
+                t["count"] = t["count"] + 1
+            withval = rng.random() < 0.25
+            return self.op("L", t["k"], i, t["exp"], t["eflag"], t["count"], t["rcount"], 0x02, self.val() if withval else "-")
+        if kind == "partial":
+            i = rng.choice([i for i in ids if h[i]["depth"] > 1])
+            t = h[i]
+            t["depth"] -= 1
+            return self.op("U", t["k"], i, 0, 0, 0, 1, 0)
+        i = rng.choice(ids)
+        t = h.pop(i)
+        return self.op("U", t["k"], i, 0, 0, 0, 0, 0)
+
+    def ops(self, n):
+        return [self.step() for _ in range(n)]
+
+
+def parse_records(files):
+    """[(file, type, key, lockid, aofflag, value|None)] in load order (rewrite.aof, then the append files)"""
+    names = (["rewrite.aof"] if "rewrite.aof" in files else []) + \
+        sorted([f for f in files if re.fullmatch(r"append\.aof\.\d+", f)], key=lambda f: int(f.split(".")[2]))
+    res = []
+    for f in names:
+        body, dat, pos = files[f][12:], files.get(f + ".dat", b""), 0
+        for i in range(0, len(body) - 63, 64):
+            x = body[i:i + 64]
+            aofflag, val = int.from_bytes(x[55:57], "little"), None
+            if aofflag & 0x2000 and pos + 4 <= len(dat):
+                n = int.from_bytes(dat[pos:pos + 4], "little")
+                val = dat[pos:pos + 4 + n]
+                pos += 4 + n
+            res.append((f, x[2], x[37:53].hex(), x[21:37].hex(), aofflag, val))
+    return res
+
+
+def value_of_released_holder(ref_files, exp_census, cen):
+    """the two censuses differ ONLY in the value of keys whose expected value was written by a lock id that holds nothing any
+    more while other holders of the (shared) key remain: returns those keys"""
+    if len(exp_census) != len(cen):
+        return []
+    keys = set()
+    for x, y in zip(exp_census, cen):
+        if x[0] != y[0] or x[2] != y[2] or ((x[3] != y[3]) and not x[2] & 0x0040):
+            return []
+        if x[1] != y[1]:
+            keys.add(re.search(r"key=(\w+)", x[0]).group(1))
+    recs = parse_records(ref_files)
+    for k in keys:
+        holders = set(re.search(r"lockid=(\w+)", x[0]).group(1) for x in exp_census if "key=" + k in x[0])
+        want = [x[1] for x in exp_census if "key=" + k in x[0]][0]
+        last = [r for r in recs if r[2] == k and r[5] is not None and r[1] == 1]
+        if not last or "val=" + last[-1][5].hex() != want or last[-1][3] in holders:
+            return []
+    return sorted(keys)
+
+
+def ghosts_of_skipped_unlocks(ref_files, exp_census, cen, now):
+    """the reference (un-compacted log) recovers MORE holds than the compacted directory, and every extra one was released
+    in the reference history: its last record is a full UNLOCK which the loader skips as `expired` (the expiry filter of
+    LoadAofFile is applied to unlock records too), so only the un-compacted log brings the hold back.  Returns them."""
+    obs = set((x[0], x[1]) for x in cen)
+    extra = [x for x in exp_census if (x[0], x[1]) not in obs]
+    if not extra or len(exp_census) - len(extra) != len(cen):
+        return []
+    rest = [x for x in exp_census if (x[0], x[1]) in obs]
+    if not census_equal(rest, cen):
+        return []
+    raw = {}
+    names = (["rewrite.aof"] if "rewrite.aof" in ref_files else []) + \
+        sorted([f for f in ref_files if re.fullmatch(r"append\.aof\.\d+", f)], key=lambda f: int(f.split(".")[2]))
+    for f in names:
+        body = ref_files[f][12:]
+        for i in range(0, len(body) - 63, 64):
+            x = body[i:i + 64]
+            raw[(x[37:53].hex(), x[21:37].hex())] = x
+    for x in extra:
+        k, l = re.search(r"key=(\w+)", x[0]).group(1), re.search(r"lockid=(\w+)", x[0]).group(1)
+        last = raw.get((k, l))
+        if last is None or last[2] != 2 or last[63] != 0 or not c8.expired(last, now):
+            return []
+    return extra
+
+
+def only_inherited_deadlines(exp_census, cen):
+    """the censuses differ only in the deadline of holds whose current terms say `unlimited, Expried 0xffff`: in an update
+    that combination means KEEP the deadline the hold has (UpdateLockedLock), so the deadline was set by an earlier record"""
+    if len(exp_census) != len(cen):
+        return []
+    res = []
+    for x, y in zip(exp_census, cen):
+        if x[0] != y[0] or x[1] != y[1] or x[2] != y[2]:
+            return []
+        if x[3] != y[3] and not x[2] & 0x0040:
+            if not x[2] & 0x4000:
+                return []
+            res.append((x[0], x[3], y[3]))
+    return res
+
+
+def lost_after_expired_first_record(ref_files, exp_census, cen, now):
+    """the compacted directory lacks holds of the reference, everything else is equal, and for each of them the reference
+    history since its last full release starts with a LOCK record the loader skips as expired (the term was extended by a
+    later update) and contains a partial UNLOCK: with the update record dropped as superseded the depth is one short and
+    the partial release becomes a full one.  Returns them."""
+    obs = set((x[0], x[1]) for x in cen)
+    extra = [x for x in exp_census if (x[0], x[1]) not in obs]
+    if not extra or len(exp_census) - len(extra) != len(cen) or not census_equal([x for x in exp_census if (x[0], x[1]) in obs], cen):
+        return []
+    hist = {}
+    names = (["rewrite.aof"] if "rewrite.aof" in ref_files else []) + \
+        sorted([f for f in ref_files if re.fullmatch(r"append\.aof\.\d+", f)], key=lambda f: int(f.split(".")[2]))
+    for f in names:
+        body = ref_files[f][12:]
+        for i in range(0, len(body) - 63, 64):
+            x = body[i:i + 64]
+            h = hist.setdefault((x[37:53].hex(), x[21:37].hex()), [])
+            if x[2] == 2 and x[63] == 0:
+                del h[:]
+            else:
+                h.append(x)
+    for x in extra:
+        k, l = re.search(r"key=(\w+)", x[0]).group(1), re.search(r"lockid=(\w+)", x[0]).group(1)
+        h = hist.get((k, l), [])
+        if not h or h[0][2] != 1 or not c8.expired(h[0], now) or not any(r[2] == 2 and r[63] > 0 for r in h):
+            return []
+    return extra
 
 
 def tmp_records(tmp):
@@ -95,15 +334,42 @@ def tmp_records(tmp):
     return [body[i:i + 64] for i in range(0, len(body) - 63, 64)]
 
 
+def rewrite_guard_events(events):
+    """harness event lines -> (model event letters, expectations per letter)"""
+    evs, exp = [], []
+    for e in events:
+        t = e.split()
+        kv = dict(x.split("=", 1) for x in t if "=" in x)
+        if t[0] == "trigger":
+            out = kv["outcome"]
+            if out in ("parked", "completed"):
+                evs.append("R")
+                exp.append(("started", None if out == "completed" else kv["after"], e))
+                if out == "completed":
+                    evs.append("F")
+                    exp.append(("finished", kv["after"], e))
+            else:
+                evs.append("R")
+                exp.append(("-", kv["after"], e))
+        elif t[0] == "resumed" and kv.get("was_parked") == "true":
+            evs.append("F")
+            exp.append(("finished", kv["after"], e))
+    return evs, exp
+
+
 def run(ctx):
     ok, log = ctx.coq(["Properties/C16.vo"])
-    theorems = ["C16_compaction_filters_and_keeps_order", "C16_compaction_preserves_replay", "C16_refuted_crash_before_rename",
-                "C16_refuted_value_file_renamed_separately"]
-    for th in theorems:
+    for th in THEOREMS:
         present = th in ctx.assumption_report
         ctx.obligation(th, ok and present, "" if (ok and present) else getattr(ctx, "coq_failure", "not compiled"))
     if not ok:
         ctx.violation("proof:C16", "a C16 theorem no longer checks", {"broken": "coq", "log": getattr(ctx, "coq_failure", log[-2000:])}, found_input=False)
+
+    gflag = guard_switch(vlib.REPO)
+    gsw = 1 if gflag == "isRewriting" else 0
+    ctx.notes.append("source switch: the entry guard of rewriteAofFiles tests self.%s" % gflag)
+    ctx.obligation("source switch: the entry guard of rewriteAofFiles tests isRewriting (the variant C16_at_most_one_compaction is about)",
+                   gflag == "isRewriting", "" if gflag == "isRewriting" else "guard tests %s" % gflag)
 
     ov, hooknote = hooked_source(ctx)
     ctx.notes.append(hooknote)
@@ -114,25 +380,90 @@ def run(ctx):
     thorough = ctx.tier == "thorough"
     rng = ctx.rng
     base = tempfile.mkdtemp(prefix="aof-c16-", dir="/tmp")
-    stats = {"scenarios": 0, "compactions": 0, "snapshots": 0, "dir_mismatch": 0, "census_checked": 0, "hits": {}, "points": {}}
+    stats = {"scenarios": 0, "compactions": 0, "snapshots": 0, "dir_mismatch": 0, "census_checked": 0, "restarts": 0, "hits": {}, "points": {},
+             "busy": {"scenarios": 0, "parked_at": {}, "second_request": {}, "requests_while_parked": 0, "snapshots": 0, "marks": 0,
+                      "guard_events": 0, "footprint_compared": 0}, "op_kinds": {}, "second_generation": 0}
     distinct = set()
     witnesses = {}
     mism = []
+    gmism = []
+    cache = {}
 
-    def inst_census(files, tag):
+    def note_kinds(g):
+        for k, v in g.kinds.items():
+            stats["op_kinds"][k] = stats["op_kinds"].get(k, 0) + v
+
+    def inst_census(files, tag="x"):
+        key = hashlib.sha1(repr(sorted(files.items())).encode()).hexdigest()
+        if key in cache:
+            return cache[key]
         d = os.path.join(base, "inst-" + tag)
         write_dir(os.path.join(d, "data"), files)
         p = subprocess.run([aofh, "inst", os.path.join(d, "data"), os.path.join(d, "log"), "4096"],
-                           stdout=subprocess.PIPE, stderr=subprocess.STDOUT, timeout=60)
+                           stdout=subprocess.PIPE, stderr=subprocess.STDOUT, timeout=60, env=ENV)
         out = p.stdout.decode()
         shutil.rmtree(d, ignore_errors=True)
-        return ("init ok" in out), census(out), out
+        stats["restarts"] += 1
+        cache[key] = (("init ok" in out), census(out), out)
+        return cache[key]
 
-    def check_compaction(name, pre, snaps, rotate, cur):
-        """pre: files before; snaps: [(point, files)] in order; compares with the model and runs the monitor"""
-        stats["compactions"] += 1
-        tmp200 = [f for (pt, f) in snaps if pt == 200]
-        live = tmp_records(tmp200[0].get("rewrite.aof.tmp", b"")) if tmp200 else []
+    def classify(pt, files, okk, cen, exp_census, ref_files):
+        """signature of a snapshot that does not recover to the reference"""
+        if okk:
+            ks = value_of_released_holder(ref_files, exp_census, cen)
+            if ks:
+                return ("value-written-by-a-released-holder-of-a-shared-key-is-dropped",
+                        "the compaction drops the lock/update record that carried the current value of a shared key because the lock id that wrote it holds nothing any more; "
+                        "the remaining holders' older records carry the older value: after a restart key %s has its previous value" % ks[0])
+            inh = only_inherited_deadlines(exp_census, cen)
+            if inh:
+                return ("deadline-kept-by-an-update-changes-when-the-update-that-set-it-is-dropped",
+                        "an update with EXPRIED_FLAG_UNLIMITED_EXPRIED_TIME and Expried 0xffff changes Count/Rcount and KEEPS the deadline the hold has; the compaction keeps "
+                        "that record (its terms are the current ones) and drops the earlier update that had set the deadline: after a restart the hold %s ends at %d instead of %d" % inh[0])
+            lo = lost_after_expired_first_record(ref_files, exp_census, cen, int(time.time()))
+            if lo:
+                return ("hold-lost-after-expired-first-record-and-dropped-update",
+                        "a hold whose first LOCK record is over for the loader (its term was extended by an update, then the hold was re-entered and partially released): "
+                        "the compaction drops the update record as superseded by the re-entrant LOCK record; the un-compacted log recovers the hold because the update record "
+                        "stands in for the skipped LOCK record, the compacted one is a level short and the partial UNLOCK releases it: %s is lost" % lo[0][0])
+            gh = ghosts_of_skipped_unlocks(ref_files, exp_census, cen, int(time.time()))
+            if gh:
+                return ("uncompacted-log-resurrects-a-released-hold",
+                        "the un-compacted log brings back a hold that was released: the hold's term was shortened by an update, its UNLOCK record carries the short term and "
+                        "is skipped by the loader's expiry filter once that term is over, the older LOCK record with the long term is loaded; the compaction (correctly) drops "
+                        "all of them, so a restart recovers %d holds from the compacted directory and %d from the files it replaced (%s)" % (len(cen), len(exp_census), gh[0][0]))
+        if pt in (201, 202) and "rewrite.aof.tmp" in files and "rewrite.aof" not in files:
+            return ("crash-after-inputs-removed-before-rename",
+                    "compaction removes its input files before renaming rewrite.aof.tmp into place: a crash in between loses every compacted hold (restart recovers %d of %d holds)" % (len(cen), len(exp_census)))
+        if pt == 203 and "rewrite.aof.tmp.dat" in files and "rewrite.aof" in files and "rewrite.aof.tmp" not in files:
+            return ("crash-between-the-two-renames",
+                    "rewrite.aof and rewrite.aof.dat are renamed separately: a crash in between leaves records whose values are missing (%s)" % ("start fails" if not okk else "restart recovers %d of %d holds" % (len(cen), len(exp_census))))
+        if "rewrite.aof.tmp" in ref_files and pt in (203, 204, 299):
+            return ("stale-rewrite-tmp-is-appended-to",
+                    "a rewrite.aof.tmp left behind by an interrupted compaction is not removed at start-up (clearAofFiles is never called): the next compaction "
+                    "appends to it, the records of the interrupted compaction are in the new rewrite.aof twice (re-entrant holds come back deeper: %d holds, expected %d)" % (len(cen), len(exp_census)))
+        if pt in (299, 300, 301):
+            return ("compaction-changes-recovered-state:completed",
+                    "after the compaction has returned a restart recovers a different state (%s)" % ("start fails" if not okk else "%d holds instead of %d, or other depths / terms / deadlines / values" % (len(cen), len(exp_census))))
+        return ("compaction-changes-recovered-state:point-%d" % pt, "restart after crash point %d recovers a different state" % pt)
+
+    def monitor(name, pt, kk, files, exp_ok, exp_census, extra, ref_files):
+        okk, cen, out = inst_census(files, "snap")
+        stats["census_checked"] += 1
+        distinct.add((name, pt, kk, okk, len(cen)))
+        if okk == exp_ok and census_equal(cen, exp_census):
+            return True
+        sig, what = classify(pt, files, okk, cen, exp_census, ref_files)
+        stats["hits"][sig] = stats["hits"].get(sig, 0) + 1
+        if sig not in witnesses:
+            rep = {"scenario": name, "crash_point": pt, "mutations_done": kk,
+                   "crash_image": {f: c8.hx(b) for f, b in files.items()},
+                   "expected_census": census_show(exp_census), "observed_census": census_show(cen), "init_ok": okk}
+            rep.update(extra)
+            witnesses[sig] = (what, rep)
+        return False
+
+    def model_states(pre, rotate, cur, live):
         now = int(time.time())
         script = [fxline, "clear"] + ["put %s %s" % (f, c8.hx(b)) for f, b in sorted(pre.items())]
         script.append("compact %d %d %d 4096 %s" % (1 if rotate else 0, cur, now, " ".join(r.hex() for r in live)))
@@ -144,8 +475,16 @@ def run(ctx):
             if l.startswith("state "):
                 k, rest = l[6:].split(" ", 1)
                 files, rec = rest.split(" | ")
-                states[int(k)] = (files.strip(), rec.strip())
-        # map snapshots to mutation counts
+                states[int(k)] = files.strip()
+        return states
+
+    def check_compaction(name, pre, snaps, rotate, cur, ops=None):
+        """pre: files before; snaps: [(point, files)] in order; compares with the model and runs the monitor"""
+        stats["compactions"] += 1
+        tmp200 = [f for (pt, f) in snaps if pt == 200]
+        live = tmp_records(tmp200[0].get("rewrite.aof.tmp", b"")) if tmp200 else []
+        states = model_states(pre, rotate, cur, live)
+        nstates = max(states) if states else 0
         k = 0
         exp_ok, exp_census, exp_out = inst_census(pre, "pre")
         for (pt, files) in snaps:
@@ -157,83 +496,287 @@ def run(ctx):
             elif pt == 200:
                 k = (2 if rotate else 0) + 2
                 kk = k
+            elif pt == 299:
+                kk = nstates            # the compaction has returned: every mutation of the model's list is done
             else:
                 k += 1
                 kk = k
             stats["snapshots"] += 1
             stats["points"][pt] = stats["points"].get(pt, 0) + 1
             got = show_dir(files)
-            want = states.get(kk, ("<no state %d>" % kk, ""))[0]
+            want = states.get(kk, "<no state %d>" % kk)
             if got != want:
                 stats["dir_mismatch"] += 1
                 if len(mism) < 4:
                     mism.append({"scenario": name, "point": pt, "k": kk, "impl": got[:600], "model": want[:600]})
-            # monitor: what a restart recovers from this snapshot
-            okk, cen, out = inst_census(files, "snap")
-            stats["census_checked"] += 1
-            distinct.add((name, pt, kk, okk, len(cen)))
-            if (not okk) or cen != exp_census:
-                if pt in (201, 202):
-                    sig = "crash-after-inputs-removed-before-rename"
-                    what = "compaction removes its input files before renaming rewrite.aof.tmp into place: a crash in between loses every compacted hold (restart recovers %d of %d holds)" % (len(cen), len(exp_census))
-                elif pt == 203:
-                    sig = "crash-between-the-two-renames"
-                    what = "rewrite.aof and rewrite.aof.dat are renamed separately: a crash in between leaves records whose values are missing (%s)" % ("start fails" if not okk else "restart recovers %d of %d holds" % (len(cen), len(exp_census)))
-                else:
-                    sig = "compaction-changes-recovered-state:point-%d" % pt
-                    what = "restart after crash point %d recovers a different state" % pt
-                stats["hits"][sig] = stats["hits"].get(sig, 0) + 1
-                if sig not in witnesses:
-                    witnesses[sig] = (what, {"scenario": name, "crash_point": pt, "mutations_done": kk,
-                                             "pre_image": {f: c8.hx(b) for f, b in pre.items()},
-                                             "crash_image": {f: c8.hx(b) for f, b in files.items()},
-                                             "expected_census": exp_census, "observed_census": cen, "init_ok": okk})
+            monitor(name, pt, kk, files, exp_ok, exp_census,
+                    {"pre_image": {f: c8.hx(b) for f, b in pre.items()}, "ops": ops or []}, pre)
 
-    try:
-        nsc = 20 if thorough else 4
-        for si in range(nsc):
-            stats["scenarios"] += 1
-            d = os.path.join(base, "s%d" % si)
-            os.makedirs(os.path.join(d, "data"))
-            ops = []
-            nrot = rng.choice([1, 2, 3])
-            for r in range(nrot):
-                ops += gen_ops(rng, rng.choice([2, 4, 7]), 100 * r) + ["settle", "rotate"]
-            p = subprocess.run([aofh, "compact", os.path.join(d, "data"), os.path.join(d, "log"), "4096", "0", os.path.join(d, "snap"), "0"] + ops,
-                               stdout=subprocess.PIPE, stderr=subprocess.STDOUT, timeout=120)
-            out = p.stdout.decode()
-            if "census-end" not in out:
-                raise vlib.BuildError("aofh compact failed: " + out[-1500:])
-            curs = [int(x) for x in re.findall(r"^cur (\d+)", out, flags=re.M)][1:]
-            names = sorted(os.listdir(os.path.join(d, "snap")))
-            groups, curg = [], None
-            for nme in names:
+    def run_compact(d, arm, ops):
+        p = subprocess.run([aofh, "compact", os.path.join(d, "data"), os.path.join(d, "log"), "4096", "0", os.path.join(d, "snap"), "1" if arm else "0"] + ops,
+                           stdout=subprocess.PIPE, stderr=subprocess.STDOUT, timeout=120, env=ENV)
+        out = p.stdout.decode()
+        startup, groups, curg = [], [], None
+        if os.path.isdir(os.path.join(d, "snap")):
+            for nme in sorted(os.listdir(os.path.join(d, "snap"))):
                 pt = int(nme.split("-")[1])
                 files = read_dir(os.path.join(d, "snap", nme))
                 if pt == 0:
                     curg = {"pre": files, "snaps": []}
                     groups.append(curg)
-                curg["snaps"].append((pt, files))
+                if curg is None:
+                    startup.append((pt, files))
+                else:
+                    curg["snaps"].append((pt, files))
+            shutil.rmtree(os.path.join(d, "snap"))
+        curs = [int(x) for x in re.findall(r"^cur (\d+)", out, flags=re.M)]
+        return out, startup, groups, curs
+
+    def startup_generation(name, files, ops=None):
+        """a node with start-up compaction on <files>; the compaction is checked like any other; returns the directory it leaves"""
+        d2 = os.path.join(base, "gen2")
+        shutil.rmtree(d2, ignore_errors=True)
+        write_dir(os.path.join(d2, "data"), files)
+        out2, st, groups, curs = run_compact(d2, True, ops or [])
+        if "census-end" not in out2:
+            okk, cen, out = inst_census(files, "g2")
+            if okk:
+                raise vlib.BuildError("aofh compact (start-up) failed: " + out2[-1500:])
+            return None, []
+        apps = [int(f.split(".")[2]) for f in files if re.fullmatch(r"append\.aof\.\d+", f)]
+        if st and apps:
+            check_compaction(name + ".startup", files, st, False, max(apps), ops)
+        for gi, g in enumerate(groups):
+            check_compaction("%s.rot%d" % (name, gi), g["pre"], g["snaps"], True, curs[1 + gi] if len(curs) > 1 + gi else 0, ops)
+        left = read_dir(os.path.join(d2, "data"))
+        shutil.rmtree(d2, ignore_errors=True)
+        stats["second_generation"] += 1
+        return left, st
+
+    # ------------------------------------------------------------------------------------ busy compactions
+    def run_script(d, script, ref, t0):
+        os.makedirs(d, exist_ok=True)
+        open(os.path.join(d, "script.txt"), "w").write("\n".join(script) + "\n")
+        p = subprocess.run([aofh, "script", os.path.join(d, "data"), os.path.join(d, "log"), "4096", "0", os.path.join(d, "snap"), "1" if ref else "0",
+                            str(t0), os.path.join(d, "script.txt")], stdout=subprocess.PIPE, stderr=subprocess.STDOUT, timeout=180, env=ENV)
+        out = p.stdout.decode()
+        if "script-end" not in out:
+            raise vlib.BuildError("aofh script failed: " + out[-2000:])
+        return out
+
+    def check_busy(name, script):
+        bs = stats["busy"]
+        bs["scenarios"] += 1
+        stats["scenarios"] += 1
+        t0 = int(time.time()) - 1000
+        d, dr = os.path.join(base, name), os.path.join(base, name + "-ref")
+        out = run_script(d, script, False, t0)
+        outr = run_script(dr, script, True, t0)
+        nm, nmr = len(re.findall(r"^mark \d+", out, flags=re.M)), len(re.findall(r"^mark \d+", outr, flags=re.M))
+        if nm != nmr:
+            raise vlib.BuildError("reference run took %d marks, compacting run %d" % (nmr, nm))
+        bs["marks"] += nm
+        refs = {}
+
+        def ref_census(i):
+            if i not in refs:
+                rf = read_dir(os.path.join(dr, "snap", "m%03d" % i))
+                refs[i] = inst_census(rf, "ref") + (rf,)
+            return refs[i]
+        events = [l for l in out.split("\n") if re.match(r"^(snap|trigger|admin|resumed|mark|end) ", l)]
+        replay_extra = {"script": script, "t0": t0, "how": "aofh script <dir> <log> 4096 0 <snapdir> 0 <t0> <script>; reference: same with <ref>=1"}
+        # (a) monitor on every snapshot, mark and on the final directory
+        todo = []
+        lastclear, parked_at = 0, 0         # a compaction parked in the middle of clearRewriteAofFiles: marks and rotations
+        for e in events:                    # taken meanwhile are images of that crash point
+            t = e.split()
+            kv = dict(x.split("=", 1) for x in t if "=" in x)
+            if t[0] == "trigger" and kv["outcome"] == "parked":
+                parked_at = lastclear
+            elif t[0] == "resumed":
+                parked_at = 0
+            if t[0] == "snap":
+                if 200 <= int(t[2]) <= 204:
+                    lastclear = int(t[2])
+                eff = parked_at if (parked_at and int(t[2]) in (210, 211)) else int(t[2])
+                todo.append((eff, "%s-%s" % (t[1], t[2]), int(kv["ref"]), e))
+                bs["snapshots"] += 1
+                stats["points"][int(t[2])] = stats["points"].get(int(t[2]), 0) + 1
+                if int(kv["active"]) > 1 or (200 <= int(t[2]) <= 204 and kv["rewriting"] != "1"):
+                    sig = "two-compactions-active" if int(kv["active"]) > 1 else "compaction-running-with-isRewriting-false"
+                    stats["hits"][sig] = stats["hits"].get(sig, 0) + 1
+                    witnesses.setdefault(sig, ("a second compaction goroutine passed the entry guard of rewriteAofFiles while another one was still running (both scan the same inputs and append into the same rewrite.aof.tmp)"
+                                               if int(kv["active"]) > 1 else "a compaction is past its guard while isRewriting is false",
+                                               dict(replay_extra, event=e, scenario=name)))
+            elif t[0] == "mark":
+                todo.append((parked_at or 300, "m%03d" % int(t[1]), int(t[1]), e))
+        for (pt, sname, ri, e) in todo:
+            files = read_dir(os.path.join(d, "snap", sname))
+            rok, rcen, _, rfiles = ref_census(ri)
+            stats["snapshots"] += 1
+            monitor(name, pt, ri, files, rok, rcen, dict(replay_extra, event=e, reference="history up to mark %d, never compacted" % ri), rfiles)
+        final = read_dir(os.path.join(d, "data"))
+        rok, rcen, _, rfiles = ref_census(nm - 1)
+        monitor(name, 301, nm - 1, final, rok, rcen, dict(replay_extra, event="final directory after Close"), rfiles)
+        m = re.search(r"^end parked=(\w+) overlap=(\d+) entered=(\d+)", out, flags=re.M)
+        if m and int(m.group(2)) > 0 and "two-compactions-active" not in witnesses:
+            witnesses["two-compactions-active"] = ("two compaction goroutines were between verifPoint(200) and verifPoint(204) at the same time", dict(replay_extra, scenario=name))
+        # (b) the guard state machine against the flags of the real Aof struct
+        evs, exp = rewrite_guard_events(events)
+        bs["guard_events"] += len(evs)
+        for e in events:
+            if e.startswith("trigger"):
+                how = e.split()[1]
+                kv = dict(x.split("=", 1) for x in e.split() if "=" in x)
+                key = "%s:%s" % (how, kv["outcome"])
+                bs["second_request"][key] = bs["second_request"].get(key, 0) + 1
+            if e.startswith("admin rejected"):
+                bs["second_request"]["admin:rejected"] = bs["second_request"].get("admin:rejected", 0) + 1
+        rc, mout, merr = c8.run_script(modelrun, [], "guard %d %s\n" % (gsw, " ".join(evs)))
+        if rc != 0:
+            raise vlib.BuildError("modelrun guard failed: " + merr[-800:])
+        glines = [l.split() for l in mout.split("\n") if l.startswith("g ")][1:]
+        for (gl, (mark, after, e)) in zip(glines, exp):
+            bad = (gl[4] != mark) or (after is not None and after != gl[1] + gl[2]) or int(gl[3]) > 1
+            if "outcome=stuck" in e:
+                bad = True
+            if bad and len(gmism) < 4:
+                gmism.append({"scenario": name, "event": e, "model": " ".join(gl), "script": script})
+        # (c) footprint of every compaction that ran: byte for byte against the model (appends go elsewhere)
+        pre211, grp = None, None
+        for e in events:
+            t = e.split()
+            if t[0] != "snap":
+                continue
+            kv = dict(x.split("=", 1) for x in t if "=" in x)
+            pt, files = int(t[2]), None
+            if pt == 211:
+                pre211 = (read_dir(os.path.join(d, "snap", "%s-%s" % (t[1], t[2]))), int(kv["cur"]))
+                continue
+            if pt == 200 and pre211:
+                files = read_dir(os.path.join(d, "snap", "%s-%s" % (t[1], t[2])))
+                live = tmp_records(files.get("rewrite.aof.tmp", b""))
+                grp = {"cur": pre211[1], "states": model_states(pre211[0], False, pre211[1], live), "k": 2}
+                stats["compactions"] += 1
+            elif pt in (201, 202, 203, 204) and grp:
+                grp["k"] += 1
+            elif pt == 299 and grp:
+                grp["k"] = max(grp["states"])
+            else:
+                continue
+            files = files or read_dir(os.path.join(d, "snap", "%s-%s" % (t[1], t[2])))
+            got = " ".join(sorted("%s=%s" % (f, c8.hx(b)) for f, b in files.items() if local_file(f, grp["cur"])))
+            want = " ".join(x for x in grp["states"].get(grp["k"], "<none>").split(" ") if local_file(x.split("=")[0], grp["cur"]))
+            bs["footprint_compared"] += 1
+            if got != want:
+                stats["dir_mismatch"] += 1
+                if len(mism) < 4:
+                    mism.append({"scenario": name, "point": pt, "k": grp["k"], "impl": got[:600], "model": want[:600], "busy": True, "script": script})
+            if pt == 299:
+                grp = None
+        for l in script:
+            if l.startswith("park "):
+                bs["parked_at"][l.split()[1]] = bs["parked_at"].get(l.split()[1], 0) + 1
+        armed, inpark = False, False
+        for l in script:
+            if l.startswith("park "):
+                armed = True
+            elif l == "trigger" and armed and not inpark:
+                armed, inpark = False, True
+            elif l == "resume":
+                inpark = False
+            elif inpark and ":" in l:
+                bs["requests_while_parked"] += 1
+        shutil.rmtree(d, ignore_errors=True)
+        shutil.rmtree(dr, ignore_errors=True)
+        return final
+
+    def gen_busy(rng):
+        g = Gen(rng)
+        s = []
+
+        def ops(n):
+            for _ in range(n):
+                s.append(g.step())
+                if rng.random() < 0.3:
+                    s.append("adv %d" % rng.choice([1, 3, 20]))
+        ops(rng.choice([3, 6, 9]))
+        if rng.random() < 0.6:                      # an earlier compaction: the parked one has a rewrite.aof among its inputs
+            s.append("rotate")
+            ops(rng.choice([2, 5]))
+        if rng.random() < 0.4:                      # several closed append files among the inputs
+            s.append("thresh %d" % (12 + 64 * rng.choice([2, 3])))
+            ops(rng.choice([4, 7]))
+            s.append("thresh 0")
+        s.append("park %d" % rng.choice([200, 200, 201, 202, 203]))
+        s.append("trigger")
+        ops(rng.choice([2, 4, 6]))
+        how = rng.choice(["trigger", "trigger", "admin", "size"])
+        if how == "size":
+            s.append("thresh %d" % (12 + 64 * rng.choice([1, 2])))
+            ops(rng.choice([3, 5]))
+            s.append("thresh 0")
+        else:
+            s.append(how)
+        ops(rng.choice([1, 3]))
+        s.append("resume")
+        ops(rng.choice([0, 3]))
+        s.append("rotate")
+        ops(rng.choice([0, 2]))
+        note_kinds(g)
+        return s
+
+    try:
+        # ---- corpus: regression inputs first
+        cdir = os.path.join(vlib.VERIF, "corpus", "C16")
+        corpus = []
+        for f in sorted(os.listdir(cdir)) if os.path.isdir(cdir) else []:
+            if f.endswith(".json"):
+                corpus.append((f[:-5], json.load(open(os.path.join(cdir, f)))))
+        for cname, c in corpus:
+            if c["kind"] == "busy":
+                check_busy("corpus-" + cname, c["script"])
+        # ---- quiescent compactions, 1..3 in a row in one process (the 2nd/3rd have the rewrite.aof of the previous one
+        #      among their inputs), then restart chains: start-up compaction, more requests, another compaction, restart
+        seqs = [(cname, c["ops"]) for cname, c in corpus if c["kind"] == "seq"]
+        nsc = 20 if thorough else 4
+        for si in range(nsc):
+            g = Gen(rng)
+            ops = []
+            for r in range(rng.choice([1, 2, 3])):
+                ops += g.ops(rng.choice([3, 5, 8])) + ["settle", "rotate"]
+            ops += g.ops(rng.choice([0, 2, 4]))
+            note_kinds(g)
+            seqs.append(("s%d" % si, ops))
+        for (sname, ops) in seqs:
+            stats["scenarios"] += 1
+            d = os.path.join(base, sname)
+            os.makedirs(os.path.join(d, "data"))
+            out, st, groups, curs = run_compact(d, False, ops)
+            if "census-end" not in out:
+                raise vlib.BuildError("aofh compact failed: " + out[-1500:])
             for gi, g in enumerate(groups):
-                check_compaction("s%d.rot%d" % (si, gi), g["pre"], g["snaps"], True, curs[gi])
-            # start-up compaction on a multi-file directory built from the last pre-clear snapshot of this scenario
+                check_compaction("%s.rot%d" % (sname, gi), g["pre"], g["snaps"], True, curs[1 + gi], ops)
+            # start-up compaction on a multi-file directory: the last pre-clear snapshot of this scenario
             cand = [f for g in groups for (pt, f) in g["snaps"] if pt == 211]
             if cand:
-                files = dict(cand[-1])
-                d2 = os.path.join(base, "s%d-start" % si)
-                write_dir(os.path.join(d2, "data"), files)
-                p = subprocess.run([aofh, "compact", os.path.join(d2, "data"), os.path.join(d2, "log"), "4096", "0", os.path.join(d2, "snap"), "1"],
-                                   stdout=subprocess.PIPE, stderr=subprocess.STDOUT, timeout=120)
-                out2 = p.stdout.decode()
-                sn = []
-                if os.path.isdir(os.path.join(d2, "snap")):
-                    for nme in sorted(os.listdir(os.path.join(d2, "snap"))):
-                        sn.append((int(nme.split("-")[1]), read_dir(os.path.join(d2, "snap", nme))))
-                cur2 = max(int(f.split(".")[2]) for f in files if re.fullmatch(r"append\.aof\.\d+", f))
-                if sn:
-                    check_compaction("s%d.startup" % si, files, sn, False, cur2)
+                startup_generation(sname + ".multi", dict(cand[-1]))
+            # the process died at crash point 200 / 202 (rewrite.aof.tmp written, inputs (partly) there): the next start
+            cand = [f for g in groups for (pt, f) in g["snaps"] if pt in (200, 202) and "rewrite.aof.tmp" in f]
+            if cand:
+                startup_generation(sname + ".after-crash", dict(rng.choice(cand)))
+            # restart chain on the directory the process left: start-up compaction (rewrite.aof + closed files as inputs),
+            # more requests, a further compaction; then once more
+            left = read_dir(os.path.join(d, "data"))
+            g2 = Gen(rng)
+            g2.n = 500
+            more = g2.ops(rng.choice([2, 4])) + ["settle", "rotate"] + g2.ops(rng.choice([0, 2]))
+            note_kinds(g2)
+            left2, _ = startup_generation(sname + ".chain1", left, more)
+            if left2 is not None:
+                startup_generation(sname + ".chain2", left2)
             shutil.rmtree(d, ignore_errors=True)
-        # start-up compaction on hand-built directories: an existing rewrite file plus 1..4 append files
+        # ---- start-up compaction on hand-built directories: an existing rewrite file plus 1..4 append files
         for bi in range(8 if thorough else 3):
             now = int(time.time())
             nfiles = rng.choice([1, 2, 3, 4]) if bi else 4
@@ -269,43 +812,49 @@ def run(ctx):
                         locked.append(n)
                 files["append.aof.%d" % fi], files["append.aof.%d.dat" % fi] = hdr + body, dat
             stats["scenarios"] += 1
-            d2 = os.path.join(base, "b%d" % bi)
-            write_dir(os.path.join(d2, "data"), files)
-            p = subprocess.run([aofh, "compact", os.path.join(d2, "data"), os.path.join(d2, "log"), "4096", "0", os.path.join(d2, "snap"), "1"],
-                               stdout=subprocess.PIPE, stderr=subprocess.STDOUT, timeout=120)
-            sn = []
-            if os.path.isdir(os.path.join(d2, "snap")):
-                for nme in sorted(os.listdir(os.path.join(d2, "snap"))):
-                    sn.append((int(nme.split("-")[1]), read_dir(os.path.join(d2, "snap", nme))))
-            stats.setdefault("built_dirs", []).append({"append_files": nfiles, "rewrite": "rewrite.aof" in files, "snapshots": len(sn)})
-            if sn:
-                check_compaction("built%d" % bi, files, sn, False, first + nfiles - 1)
-            shutil.rmtree(d2, ignore_errors=True)
+            left, st = startup_generation("built%d" % bi, files)
+            stats.setdefault("built_dirs", []).append({"append_files": nfiles, "rewrite": "rewrite.aof" in files, "snapshots": len(st)})
+        # ---- busy compactions
+        for bi in range(24 if thorough else 4):
+            final = check_busy("busy%d" % bi, gen_busy(rng))
+            if bi % 2 == 0:
+                left, _ = startup_generation("busy%d.next" % bi, final)
     finally:
         shutil.rmtree(base, ignore_errors=True)
 
-    ctx.obligation("model directory = implementation directory at every crash point (byte for byte)", not mism, json.dumps(mism)[:1500] if mism else "")
+    ctx.obligation("model directory = implementation directory at every crash point (byte for byte; busy compactions: footprint files)", not mism, json.dumps(mism)[:1500] if mism else "")
+    ctx.obligation("guard state machine = flags of the real Aof struct and start/drop outcome of every compaction request", not gmism, json.dumps(gmism)[:1500] if gmism else "")
     for sig, (what, replay) in witnesses.items():
         ctx.violation(sig, what, replay, found_input=True)
     if mism:
         ctx.violation("correspondence:C16", "model and implementation directories differ at a crash point",
                       {"broken": "correspondence coq/Aof/Rewrite.v vs server/aof.go", "first": mism}, found_input=False)
+    if gmism:
+        ctx.violation("correspondence:C16-guard", "the guard state machine (coq/Aof/Rewrite.v gstep) and the real rewriteAofFiles disagree on a request sequence",
+                      {"broken": "correspondence coq/Aof/Rewrite.v gstep vs server/aof.go rewriteAofFiles", "first": gmism}, found_input=False)
+    if gflag != "isRewriting" and not witnesses:
+        ctx.violation("source-switch:C16-guard", "the entry guard of rewriteAofFiles no longer tests isRewriting: C16_at_most_one_compaction does not apply to this source",
+                      {"broken": "source switch", "guard_tests": gflag}, found_input=False)
 
     cov = {
         "evaluations": stats["snapshots"],
         "distinct_nontrivial": len(distinct),
-        "rule": "distinct (scenario, crash point, #mutations done, start ok, #holds recovered)",
-        "samples": ["%d scenarios, %d compactions" % (stats["scenarios"], stats["compactions"])],
+        "rule": "distinct (scenario, crash point, #mutations done / history mark, start ok, #holds recovered)",
+        "samples": ["%d scenarios, %d compactions, %d restarts" % (stats["scenarios"], stats["compactions"], stats["restarts"])],
         "scenarios": stats["scenarios"], "compactions": stats["compactions"], "snapshots": stats["snapshots"],
         "crash_points": stats["points"], "dir_mismatches": stats["dir_mismatch"], "census_checked": stats["census_checked"],
-        "monitor_hits": stats["hits"], "source_switches": sw, "built_directories": stats.get("built_dirs", []),
+        "restarts": stats["restarts"], "monitor_hits": stats["hits"], "source_switches": dict(sw, guard_tests=gflag),
+        "built_directories": stats.get("built_dirs", []), "busy": stats["busy"], "workload_op_kinds": stats["op_kinds"],
+        "second_generation_runs": stats["second_generation"], "corpus": [c[0] for c in corpus],
     }
     ctx.trusted += [
-        "crash points: add-only verifPoint(200..211) calls (proposed_fixes/c16_hooks.diff) " + hooknote,
+        "crash points: add-only verifPoint(200..211) calls " + hooknote,
         "HasLock (db.go) is a parameter of the model; in the differential run its decisions are read back from the real rewrite.aof.tmp",
         "OS model: rename/remove atomic, no reordering of completed syscalls, fsync not modelled; tmp-file writes are one mutation (the tmp file is never read by a restart)",
-        "quiescent compactions only: appends concurrent with loadRewriteAofFiles are not modelled (partial)",
+        "busy compactions: the compaction goroutine is parked at a crash point AFTER its scan (there is no crash point inside loadRewriteAofFiles): requests interleaved with the scan itself are not explored deterministically",
+        "guard events GDefer/GBarrier (follower rotation / consistency barrier) are proved about but not driven on the real code (single leader node); the admin guard is re-stated by the harness, the text handler is not called",
+        "reference of the busy runs: the same history in a second process that never compacts (manual clocks started at the same t0)",
         "extraction: ExtrOcamlBasic only; ocaml/aof/driver.ml",
     ]
-    return ctx.finish(cov, ["compaction starts at a quiescent moment (persistence queue drained, buffers flushed)",
-                            "crash = prefix of the ordered list of file-system mutations"])
+    return ctx.finish(cov, ["crash = prefix of the ordered list of file-system mutations (of the interleaving with the appends, for a busy compaction)",
+                            "appends are flushed before the directory is observed (settled marks); a compaction request arrives while another is parked at a crash point, not inside its scan"])
